@@ -173,3 +173,33 @@ Proof.
     | split; [exists (h1 * h2); split; [lia | reflexivity] | wl]
     | split; [exists (v1 * v0); split; [nia | reflexivity] | nia] ].
 Qed.
+
+Lemma to_signed_mod v : - HALF <= v < HALF -> to_signed (v mod W) = v.
+Proof.
+  intros H. unfold to_signed. destruct (v mod W <? HALF) eqn:E; b2p; mlia.
+Qed.
+
+Ltac go2 A B :=
+  destruct A as [| |l1 h1], B as [| |l2 h2]; cbn [mem wf] in *; try contradiction;
+  open_range; rewrite ?wrap256_unsigned; consts; exec; getreps; subst.
+Ltac start1 f :=
+  intros A a WA MA; unfold f;
+  destruct A as [| |l1 h1]; cbn [mem wf] in *; try contradiction;
+  open_range; rewrite ?wrap256_unsigned; consts; exec; getreps; subst.
+Ltac fixreps :=
+  repeat match goal with
+  | H : ?x <= ?v <= ?x |- _ => is_var v; assert (v = x) by lia; subst v
+  end.
+Ltac wordwit := post_if; b2p;
+  lazymatch goal with |- (exists v, _ <= v <= _ /\ v mod W = ?w) /\ _ => sw w end.
+Ltac boolres := post_if; b2p;
+  lazymatch goal with
+  | |- (exists v, _ <= v <= _ /\ v mod W = 0) /\ _ => first [sw 0 | exfalso; mlia]
+  | |- (exists v, _ <= v <= _ /\ v mod W = 1) /\ _ => first [sw 1 | exfalso; mlia]
+  | _ => first [sw 0 | sw 1 | exfalso; mlia]
+  end.
+Ltac streq :=
+  repeat match goal with
+  | |- context [String.eqb ?a ?b] =>
+      let r := eval vm_compute in (String.eqb a b) in change (String.eqb a b) with r
+  end; cbn [orb andb negb].
